@@ -99,7 +99,11 @@ def run(ctx, replay=None):
     binary = ctx.go_test_compile(PKG, ov, name="conn")
     events = ctx.run_sharded(binary, DRV, PKG, scripts, "conn", shards=4 if ctx.tier == "quick" else 8)
     byid = {s["id"]: s for s in scripts}
-    acc, rejects = vf.validate_blocks(ctx, MON, events, "conn")
+    scs = scenarios(ctx.tier)
+    cdefs = {"Scenarios": "<<" + ", ".join(tla_scen(x) for x in scs) + ">>"}
+    acc, rejects = vf.validate_blocks(ctx, MON, events, "conn", conf=("TraceConn", "Trace_Conn.cfg"), defs=cdefs,
+                                      conf_consts={"Impl": '"fixed"'},
+                                      conf_map=lambda e: dict(e, tokind=("done" if e.get("to") == "done" else "blocked" if str(e.get("to", "")).startswith("blocked:") else "gate")) if e.get("ev") == "step" else e)
     ctx.evaluations += len(scripts)
     blocks = dict(vf.split_traces(events))
     distinct, nontrivial = set(), set()
